@@ -225,21 +225,36 @@ def c10g(ctx, tu):
                    detail="" if bad is None else "re() must accept exactly non-null strings in which the regex is found: " + bad)
         except Unknown as u:
             ctx.ob("C10.g", L + "regex_check::operator()", None, pattern=fn.pat, unit=tu.name, detail="cannot interpret: %s" % u)
+    # "present" = non-null, whatever the helper stores: the char const* constructor is interpreted for a null, an
+    # empty and a non-empty string, and operator bool / begin / end are evaluated on the members it stored
+    ctors = [f for f in tu.find(L + "regex_check::string_helper::string_helper")
+             if f.rec["params"] and f.rec["params"][0]["t"] == "const char *"]
     for fn in tu.find(L + "regex_check::string_helper::operator bool"):
         try:
             bad = None
-            for b_null in (True, False):
-                for empty in (True, False):
-                    begin = None if b_null else 100
-                    end = None if b_null else (100 if empty else 103)
-                    o = Oracle(members={L + "regex_check::string_helper::begin_": begin,
-                                        L + "regex_check::string_helper::end_": end})
-                    r = bool(ret_value(fn, o))
-                    if r != (not b_null):
-                        bad = "%s string -> %s" % ("null" if b_null else ("empty non-null" if empty else "non-empty"), r)
+            if not ctors:
+                raise Unknown("char const* constructor of the string helper not found")
+            for what, ptr, n in (("null", None, 0), ("empty non-null", 100, 0), ("non-empty", 100, 3)):
+                def slen(t, it, n=n, ptr=ptr):
+                    if ptr is None:
+                        raise Unknown("strlen(nullptr)")
+                    return n
+                o = Oracle(params={0: ptr}, calls={"strlen": slen, "std::strlen": slen})
+                it = Interp(ctors[0], o)
+                it.run()
+                mem = {erase(lv[1]): v for k, lv, v in it.effects if k == "store" and lv[0] == "member"}
+                r = bool(ret_value(fn, Oracle(members=mem)))
+                if r != (ptr is not None):
+                    bad = "%s string -> %s" % (what, r)
+                if ptr is not None and bad is None:
+                    for acc, want in (("begin", ptr), ("end", ptr + n)):
+                        for g in tu.find(L + "regex_check::string_helper::" + acc):
+                            v = ret_value(g, Oracle(members=mem))
+                            if v != want:
+                                bad = "%s() of a %s string at %d is %r" % (acc, what, ptr, v)
             ctx.ob("C10.g", L + "regex_check::string_helper::operator bool", bad is None, pattern=fn.pat, unit=tu.name,
                    detail="" if bad is None else "a string counts as present exactly when it is non-null (the empty "
-                   "string is a string): " + bad)
+                   "string is a string) and spans [s, s + strlen(s)): " + bad)
         except Unknown as u:
             ctx.ob("C10.g", L + "regex_check::string_helper::operator bool", None, pattern=fn.pat, unit=tu.name,
                    detail="cannot interpret: %s" % u)
@@ -265,7 +280,7 @@ def c10g(ctx, tu):
                     guard = (bid, 0 if pol else 1)
             ok = guard is not None and all(cfg.edge_dominates(fn, guard, b) for b, _, _ in sl)
         inits = {erase(e["field"]): e.get("x") for b, e in fn.events() if e["e"] == "init" and "field" in e}
-        ok = ok and str(inits.get(L + "regex_check::string_helper::begin_")).count("'param', 0") == 1
+        ok = ok and any(lib.strip_casts(x)[:2] == ["param", 0] for x in inits.values() if isinstance(x, list))
         ctx.ob("C10.g", L + "regex_check::string_helper::string_helper(char const*)", ok, pattern=fn.pat, unit=tu.name,
                detail="" if ok else "the length of a C string may only be taken when the pointer is non-null")
 
